@@ -52,7 +52,7 @@ CASE_TIMEOUT = 300
 
 
 def budget(tier):
-    return dict(shards=16, examples=50 if tier == 'quick' else 1200)
+    return dict(shards=16, examples=50 if tier == 'quick' else 900)
 
 
 # ------------------------------------------------------------------------------------------ f / cs_f modes
@@ -745,7 +745,7 @@ def _case(draw, tier):
     m, t, prss = draw(progs.config())
     tk = draw(st.sampled_from(['int', 'int', 'int', 'int', 'fld', 'fld2', 'fxp']))
     if tk == 'int':
-        ts = {'kind': 'int', 'l': draw(st.sampled_from([1, 2, 3, 4, 5, 8, 8, 8, 13, 16, 32] +
+        ts = {'kind': 'int', 'l': draw(st.sampled_from([8, 8, 8, 16, 4, 5, 3, 2, 1, 13, 32] +
                                                         ([64] if tier == 'thorough' else [])))}
     elif tk == 'fld':
         ts = {'kind': 'fld', 'p': draw(st.sampled_from(PRIMES))}
